@@ -119,9 +119,57 @@ def run(tier):
             v.distinct((T, mode, pattern, nparts))
             if v.cov["evaluations"] % 90 == 1:
                 v.sample({"plain_length": T, "mode": mode, "calls": nparts, "growths": g, "moved": mv, "returned_rax": "0x%x" % K})
+    # ---- the same calls include asm_set_offset: offsets ahead of (and behind) the code assembled so far, also beyond the current
+    # mapping, must behave as on the large caller buffer (each call's own region and the resulting offset are compared)
+    jcases, jmeta = [], []
+    njump = 60 if not full else 1500
+    for k in range(njump):
+        steps = []
+        pos_choices = [0, 1, 19, 5979, 5980, 5999, 6000, 6019, 6020, 6021, 11999, 12040, 20000, 40000, 100000, 250000]
+        for _ in range(rnd.randrange(2, 7)):
+            off = rnd.choice(pos_choices) if rnd.random() < 0.7 else rnd.randrange(0, 300000)
+            n11 = rnd.choice([0, 1, 5, 600, 1200])
+            steps.append((off, n11))
+        cmds = ["wrap reset", "wrap forcemove %d" % (k % 2), "new 0 int", "new 1 ext 1048576 H 0xcc"]
+        for off, n11 in steps:
+            hx = common.hx("\n".join(["nop11"] * n11 + ["mov rax, 0x1122334455667788", "ret"]))
+            end = off + 11 * n11 + 11
+            cmds += ["setoff 0 %d" % off, "setoff 1 %d" % off, "asm 0 %s" % hx, "asm 1 %s" % hx, "getoff 0", "getoff 1", "sum 0 %d %d" % (off, end), "sum 1 %d %d" % (off, end)]
+        cmds.append("wrapreport")
+        jcases.append(cmds)
+        jmeta.append(steps)
+    jres = common.run_cases(binary, jcases, tag="c08j", per_case_timeout=60)
+    stats["offset_jump_cases"] = len(jcases)
+    stats["offset_jump_calls"] = 0
+    for steps, cmds, r in zip(jmeta, jcases, jres):
+        v.count()
+        case = {"key": "offsets %s" % steps, "fam": "offset_jump", "script": cmds}
+        if r["crash"]:
+            v.violation(case, r["crash"]["sig"], (r["crash"]["what"] + "\n" + r["crash"]["stderr"][-1000:]))
+            continue
+        recs = r["records"]
+        bad = None
+        for i, (off, n11) in enumerate(steps):
+            b = 4 + 8 * i
+            a0, a1, g0, g1, s0, s1 = (recs[b + 2 + j].split() for j in range(6))
+            if a1[1] != "0":
+                bad = ("precondition:call-failed-on-ample-caller-buffer", " ".join(a1))
+            elif a0[1] != "0":
+                bad = ("call-failed-on-internal-buffer", "step %d offset %d: %s" % (i, off, " ".join(a0)))
+            elif g0[1] != g1[1]:
+                bad = ("offset-differs-from-reference", "step %d: %s vs %s" % (i, g0[1], g1[1]))
+            elif s0[1] != s1[1]:
+                bad = ("code-differs-from-reference", "step %d offset %d" % (i, off))
+            if bad:
+                break
+            stats["offset_jump_calls"] += 1
+        if bad:
+            v.violation(case, bad[0], bad[1])
+        else:
+            v.distinct(("jump", tuple(steps)))
     v.cov["rule"] = ("executable programs (multi-byte-nop sled + mov rax,K + ret) whose plain length is 6000*m + r for every r in -24..24 (m = %s) so the last instructions start at every distance from the growth "
                      "threshold; single call and 2-50 calls; plain / chunk fitting 16 and 64 / counting; ld --wrap mremap forces EVERY growth to move the mapping (old range unmapped). After every call "
-                     "(offset, FNV hash of asm_get_code[0,offset)) must equal the same calls on a 1 MiB caller buffer, and calling asm_get_code() must return K" % mults)
+                     "(offset, FNV hash of asm_get_code[0,offset)) must equal the same calls on a 1 MiB caller buffer, and calling asm_get_code() must return K; plus sequences of asm_set_offset (ahead of / behind the code so far, up to 300000) + assemble, each call's region and offset compared with the caller buffer" % mults)
     v.cov["exhaustive"] = False
     v.cov.update(stats)
     return v.finish(None, stats["growths"] > 50 and stats["executions_ok"] > 50 and stats.get("cases_with_growth", 0) > 0.8 * len(cases), "too few growth events: %r" % stats)
